@@ -53,7 +53,8 @@ BORROW = {
     "C14": [("C07", "r07_11"), ("C18", "r18_13")] + ALGEBRA,
     # the complement of a shape integrates the reversed boundary: reversal must be exact for every degree
     # ... and the exact rational moments need exact quadrature points (no intermediate point rounded to the cap)
-    "C04": ALGEBRA + [("C18", "r18_13"), ("C05", "r05_2"), ("C13", "r13_3"), ("C18", "r18_7")],   # ... on exact rational nodes
+    # ... of the segments as they are stored: every constructor degree-reduces them (exactly as far as the error allows)
+    "C04": ALGEBRA + CLEAN + [("C18", "r18_13"), ("C05", "r05_2"), ("C13", "r13_3"), ("C18", "r18_7")],   # ... on exact rational nodes
     "C09": ALGEBRA,
     # the containment of two simple shapes answers through an axis-aligned shortcut (disjoint boxes) or through the
     # general branch, depending on how the drawing is turned: the two must agree (rows with / without box overlap)
@@ -77,7 +78,7 @@ BORROW = {
     # the pieces of a split are cut by the segment-level splitters
     "C15": [("C18", "r18_10")],
     # ... and are observed through `p in shape`; for the circle that is the winding number of quadratic arcs
-    "C16": CHAIN + SIGN + VERTICES + [("C02", "r02_1"), ("C02", "r02_2"), ("C18", "r18_8"), ("C18", "r18_9")],
+    "C16": CHAIN + SIGN + VERTICES + BOX + [("C02", "r02_1"), ("C02", "r02_2"), ("C18", "r18_8"), ("C18", "r18_9")],
     # directly constructed composites answer containment like the operator-built ones
     "C19": [("C03", "r03_2"), ("C03", "r03_2b"), ("C03", "r03_3"), ("C04", "r04_1")],      # ... and has the moments of its members
     # fills and outlines are decided by the orientation sign
